@@ -78,6 +78,7 @@ type Check struct {
 	Assumptions []string
 	findings    []Finding
 	engineErr   []string
+	nondet      []string
 	printed     map[string]bool
 }
 
@@ -107,6 +108,31 @@ func (c *Check) EngineError(msg string) {
 	defer c.mu.Unlock()
 	c.engineErr = append(c.engineErr, msg)
 	fmt.Printf("ENGINE-ERROR property=%s %s\n", c.Property, msg)
+}
+
+// MaxUnownedNondeterminism: executions that did not reproduce because the implementation itself resolved something at
+// random (a select with two ready cases that no gate separates) are pruned and reported, not fatal, up to this many
+// per run; beyond it the run is an engine error.
+const MaxUnownedNondeterminism = 8
+
+// Nondeterminism records one execution that did not reproduce when it was run again with the same decisions. The
+// execution and everything below it is left out of the exploration; the evidence says so (exhaustive=false).
+func (c *Check) Nondeterminism(msg string) {
+	c.mu.Lock()
+	defer c.mu.Unlock()
+	c.nondet = append(c.nondet, msg)
+	first := msg
+	if i := strings.IndexByte(first, '\n'); i > 0 {
+		first = first[:i]
+	}
+	if len(msg) > 1500 {
+		msg = msg[:1500] + " …"
+	}
+	fmt.Printf("NOTE property=%s execution not reproducible, pruned (%d so far): %s\n", c.Property, len(c.nondet), msg)
+	if len(c.nondet) > MaxUnownedNondeterminism {
+		c.engineErr = append(c.engineErr, fmt.Sprintf("more than %d executions did not reproduce: %s", MaxUnownedNondeterminism, first))
+		fmt.Printf("ENGINE-ERROR property=%s more than %d executions did not reproduce\n", c.Property, MaxUnownedNondeterminism)
+	}
 }
 
 // Report records a violation. If its signature is listed as a *known* finding for this property it
@@ -178,6 +204,22 @@ func (c *Check) Finish() int {
 	sort.Strings(kn)
 	if len(kn) > 0 {
 		c.Coverage["known_findings_hit"] = kn
+	}
+	if len(c.nondet) > 0 {
+		ex := c.nondet
+		if len(ex) > 3 {
+			ex = ex[:3]
+		}
+		short := []string{}
+		for _, m := range ex {
+			if len(m) > 600 {
+				m = m[:600] + " …"
+			}
+			short = append(short, m)
+		}
+		c.Coverage["unowned_nondeterminism"] = map[string]interface{}{"executions_pruned": len(c.nondet), "examples": short,
+			"meaning": "these executions did not reproduce when run again with the same decisions (the implementation resolved a select with two ready cases at random); they and their subtrees are not covered"}
+		c.Coverage["exhaustive"] = false
 	}
 	if _, ok := c.Coverage["samples"]; !ok {
 		c.Coverage["samples"] = []interface{}{"(none recorded)"}
